@@ -22,7 +22,7 @@ ASSUMPTIONS = ["tolerance = the format's resolution + a few ulp, so rounding and
                "non-canonical fields such as 1:60 are accepted; exponent notation and non-finite values are not demanded",
                "a leading '+' is not demanded of the parser (only what the library itself renders with the + flag)"]
 QUICK_SHARDS = 2
-REQUIRED_EVENTS = ["renderings", "validator_checks", "parse_checks", "grid_points", "device_layer_renderings", "device_layer_histories", "client_number_texts_stored", "python_numbers_written_in_process"]
+REQUIRED_EVENTS = ["renderings", "validator_checks", "parse_checks", "grid_points", "device_layer_renderings", "device_layer_histories", "renderings_of_decimal_fraction_or_subclass_values", "client_number_texts_stored", "python_numbers_written_in_process"]
 
 SEXA = [3, 5, 6, 8, 9]
 
@@ -308,12 +308,33 @@ def device_layer(ctx, i, steps):
     snoop = guide.snoop_device("DEV")
     history = []
 
+    handed = {}          # element index -> the real number the driver last handed in as some other numeric type than int / float
+    trng = ctx.rng("device-types", i)
+
+    class Float32(float):
+        """a float subclass, as numpy.float64 is"""
+
+    def typed(v):
+        from decimal import Decimal
+        from fractions import Fraction
+        t = trng.choice(["Decimal", "Fraction", "float-subclass"])
+        ctx.seen("numeric_types_handed_in", t)
+        if t == "Decimal":
+            return Decimal(repr(float(v)))
+        if t == "Fraction":
+            return Fraction(float(v))
+        return Float32(v)
+
     def judge(children, how):
         for k, c in enumerate(children):
             cur = elem[k]._value
             ctx.count("device_layer_renderings")
             if cur is None:
                 continue
+            if k in handed:
+                # a reading handed in as Decimal / Fraction / float subclass: the text must denote THAT number, whatever was kept of it
+                ctx.count("renderings_of_decimal_fraction_or_subclass_values")
+                cur = handed[k]
             ref = R.parse(str(c.value)) if c.value is not None else None
             tol = R.tolerance(fmts[k], cur)
             if ref is None or not abs(ref - cur) <= tol:
@@ -331,6 +352,11 @@ def device_layer(ctx, i, steps):
         store = rng.choice(STORES)
         history.append((store, k, v))
         ctx.seen("stores", store)
+        handed.pop(k if store != "assign-other-element" else (k + 1) % 4, None)
+        if store in ("reset_value", "read-handler-refresh") and trng.random() < 0.35:
+            v = typed(v)
+            handed[k] = float(v)
+            history[-1] = (store, k, repr(v))
         if store == "assign":
             elem[k].value = v
         elif store == "client-write":
@@ -379,6 +405,7 @@ def device_layer(ctx, i, steps):
                 vec.state_ = rng.choice(["Ok", "Busy", "Idle", "Alert"])
                 msgs = [m for m in rec.received if type(m).__name__ == "SetNumberVector"]
             else:
+                handed.pop((k + 2) % 4, None)
                 elem[(k + 2) % 4].value = round(rng.uniform(-90, 90), 3)
                 msgs = [m for m in rec.received if type(m).__name__ == "SetNumberVector"]
             history.append((how,))
